@@ -203,8 +203,13 @@ class C18(Prop):
             shift = rng.choice([0.0, 0.0, 1.0, -2.5, round(rng.uniform(-5, 5), 2)])
             half = case["size"] * 0.5 * scale
             case["scale"], case["shift"] = scale, shift
-            loc = rng.choice([shift, round(rng.uniform(shift - half, shift + half), 3)])      # location inside the axis
             width = rng.choice([1.0, 0.5, 2.0, round(rng.uniform(0.2, 5.0), 2)]) * max(scale, 0.2)
+            # location within half a width of an axis point, so that the density there is far above the underflow range
+            step = 2 * half / (case["size"] - 1)
+            grid = shift - half + rng.randrange(case["size"]) * step
+            loc = rng.choice([shift, round(grid + rng.uniform(-0.5, 0.5) * width, 3)])
+            if loc == shift and case["size"] % 2 == 0 and step > width:
+                loc = round(grid, 3)
             if name == "laplace":
                 case["args"] = [width, loc]
             elif name == "normal":
